@@ -89,9 +89,18 @@ func init() {
 		am("c09-touint16-beyond-int64",
 			"String.fromCharCode: ToUint16 of a finite value with |x| >= 2^63 yields 0 (float-to-int64 conversion overflows) instead of x modulo 2^16",
 			altToUint16Large),
+		am("c09-position-string-go-number-syntax",
+			"a position given as a String that is not a StringNumericLiteral (ToNumber: NaN, position 0) but that strconv accepts (inf, infinity, +Inf, digits separated by underscores) is converted to strconv's value",
+			altGoNumberSyntax),
 	}
 	// fromCharCode read back in-script: the wrong units then pass through charCodeAt (U+FFFD sentinel model)
-	alts[len(alts)-1].more = func(k *kase) []string {
+	large := 0
+	for i := range alts {
+		if alts[i].sig == "c09-touint16-beyond-int64" {
+			large = i
+		}
+	}
+	alts[large].more = func(k *kase) []string {
 		u, ok := largeUnits(k)
 		if !ok || k.m != "readback" || !openSigs()["c09-fffd-sentinel"] {
 			return nil
@@ -329,6 +338,10 @@ func rejectKase(method string, g []uint16, argset string) *kase {
 		k.a, k.b = noArg, noArg
 	case "trim", "toLowerCase", "toUpperCase":
 		k.a, k.b = noArg, noArg
+	case "substr":
+		if withArgs {
+			k.a, k.b = e, one
+		}
 	case "localeCompare":
 		k.tKind, k.t = "str", undefinedUnits
 		if withArgs {
@@ -590,4 +603,19 @@ func altToUint16Large(k *kase) (string, bool) {
 		return readbackExpect(u), true
 	}
 	return cStr(u), true
+}
+
+func altGoNumberSyntax(k *kase) (string, bool) {
+	if !strings.HasPrefix(k.a.name, "x:") {
+		return "", false
+	}
+	for _, a := range numObjArgs {
+		if "x:"+a.name == k.a.name && a.goSyntax {
+			c := *k
+			c.a.arg = str16.N(a.goNum)
+			out, _ := spec(&c)
+			return out, true
+		}
+	}
+	return "", false
 }
